@@ -214,10 +214,17 @@ def run(chk):
             for n in (0, 3, 6, 7, 8):
                 key = "<%s as Ord>::cmp covers all words n=%d" % (K.adt, n)
                 try:
-                    it, outs, ops = call_with_tables(env, kind, ob[0], n, ["a", "b"])
+                    from ..absint import ult_mode
+                    with ult_mode():
+                        it, outs, ops = call_with_tables(env, kind, ob[0], n, ["a", "b"])
                     o, v, d = single_return(outs)
                     if o is not None:
                         v, d = lexcmp_covers(it, o, n)
+                    elif len(returns(outs)) > 1 and not panics(outs):
+                        # comparison written as control flow: recognised as a lexicographic comparison of every block
+                        order = lex_order(outs, sym_words(n, "a"), sym_words(n, "b"))
+                        if order is not None and sorted(order) == list(range(table_words(n))):
+                            v, d = PROVED, ""
                 except Undecided as e:
                     v, d = UNDECIDED, e.cause
                 chk.add("C02.O.ord", key, v, d, where=where_of(ob[0]))
